@@ -70,6 +70,16 @@ theorem depth_reward_le_weighted_share (rp : RewardPeriod) (td : Dec) (bd : Nat)
     have : (t.2 : ℚ) ≤ (pd : ℚ) := by exact_mod_cast hle
     linarith
 
+/-- The total weight the hook divides by is the exact sum Σ multiplier × native balance of the pool list up to
+    half a unit of 10⁻¹⁸ per pool (one rounded product per pool) — so the shares of
+    `depth_reward_le_weighted_share` are shares of the true total weight, for any number of pools. -/
+theorem total_weight_is_weight_sum (rp : RewardPeriod) (pools : List (String × Pool)) (td : Dec)
+    (hmult : ∀ e ∈ pools, 0 ≤ (multiplier rp e.2.sym).i)
+    (h : totalDepth rp pools ⟨0⟩ = .ok td) :
+    (td.i : ℚ) ≤ weightSum rp pools + (pools.length : ℚ) / 2 ∧ weightSum rp pools - (pools.length : ℚ) / 2 ≤ (td.i : ℚ) := by
+  have := totalDepth_err rp pools ⟨0⟩ td hmult (by simp) h
+  simpa using this.2
+
 /-- `calcPoolDistribution` from below: a pool's unclamped reward is more than its weighted share of the block
     distribution minus bd/(2·td·10¹⁸) + bd·10⁻¹⁸ + 1 + half a unit of 10⁻¹⁸. -/
 theorem pool_distribution_ge_weighted_share {m td : Dec} {nBal bd pd : Nat} (hm : 0 ≤ m.i) (htd : 0 < td.i)
